@@ -40,6 +40,7 @@ type compCons struct {
 	comp resComp
 	kind string
 	cls  int
+	glob *ssa.Global // kind "sentinel": cls +1: errors.Is(component, glob) holds, -1: it does not
 }
 
 func compOf(v ssa.Value, depth int) (resComp, bool) {
@@ -150,6 +151,28 @@ func soleStoredResult(a *ssa.Alloc, use ssa.Instruction) ssa.Value {
 	return st.Val
 }
 
+// sentinelOf: v is a load of a package-level variable of type error (a sentinel error).
+func sentinelOf(v ssa.Value) *ssa.Global {
+	for i := 0; i < 3; i++ {
+		switch x := v.(type) {
+		case *ssa.MakeInterface:
+			v = x.X
+			continue
+		case *ssa.ChangeInterface:
+			v = x.X
+			continue
+		case *ssa.UnOp:
+			if x.Op == token.MUL {
+				if g, ok := x.X.(*ssa.Global); ok {
+					return g
+				}
+			}
+		}
+		break
+	}
+	return nil
+}
+
 func isEmptyStringConst(v ssa.Value) bool {
 	k, ok := v.(*ssa.Const)
 	return ok && k.Value != nil && k.Value.Kind() == constant.String && constant.StringVal(k.Value) == ""
@@ -163,11 +186,21 @@ func decodeCompAtom(a CondAtom) (compCons, bool) {
 		if a.Val == nil {
 			return compCons{}, false
 		}
+		// errors.Is(component, sentinel) / component == sentinel is handled below
+		if call, ok := a.Val.(*ssa.Call); ok {
+			if cal := call.Call.StaticCallee(); cal != nil && cal.Pkg != nil && cal.Pkg.Pkg.Path() == "errors" && cal.Name() == "Is" && len(call.Call.Args) == 2 {
+				if g := sentinelOf(call.Call.Args[1]); g != nil {
+					if c, ok := compOf(call.Call.Args[0], 0); ok {
+						return compCons{comp: c, kind: "sentinel", cls: 1, glob: g}, true
+					}
+				}
+			}
+		}
 		if bt, ok := a.Val.Type().Underlying().(*types.Basic); !ok || bt.Kind() != types.Bool {
 			return compCons{}, false
 		}
 		if c, ok := compOf(a.Val, 0); ok {
-			return compCons{c, "bool", 1}, true
+			return compCons{comp: c, kind: "bool", cls: 1}, true
 		}
 	case token.EQL:
 		x, y := a.X, a.Y
@@ -176,12 +209,23 @@ func decodeCompAtom(a CondAtom) (compCons, bool) {
 		}
 		if IsNil(y) {
 			if c, ok := compOf(x, 0); ok {
-				return compCons{c, "nil", -1}, true
+				return compCons{comp: c, kind: "nil", cls: -1}, true
 			}
 		}
 		if isEmptyStringConst(y) {
 			if c, ok := compOf(x, 0); ok {
-				return compCons{c, "empty", -1}, true
+				return compCons{comp: c, kind: "empty", cls: -1}, true
+			}
+		}
+		// err == sentinel
+		if g := sentinelOf(y); g != nil {
+			if c, ok := compOf(x, 0); ok {
+				return compCons{comp: c, kind: "sentinel", cls: 1, glob: g}, true
+			}
+		}
+		if g := sentinelOf(x); g != nil {
+			if c, ok := compOf(y, 0); ok {
+				return compCons{comp: c, kind: "sentinel", cls: 1, glob: g}, true
 			}
 		}
 	}
@@ -234,7 +278,7 @@ func summariseRelational(b *ssa.BasicBlock, a CondAtom, depth int, guards []Guar
 		return
 	}
 	dom := dominatingCompCons(b, cc.comp.call)
-	if len(cc.comp.path) == 0 && len(dom) == 0 {
+	if len(cc.comp.path) == 0 && len(dom) == 0 && cc.kind != "sentinel" {
 		return // the single-result summaries cover it
 	}
 	if len(dom) > 0 {
@@ -294,6 +338,9 @@ func consKey(cons []compCons) string {
 		s += c.kind + string(rune('0'+c.comp.idx))
 		for _, p := range c.comp.path {
 			s += "." + string(rune('a'+p))
+		}
+		if c.glob != nil {
+			s += "@" + c.glob.Name()
 		}
 		if c.cls > 0 {
 			s += "+;"
@@ -666,8 +713,24 @@ func consMayHold(ret *ssa.Return, c compCons, f NilFacts, last map[ssa.Value]ssa
 		// nil / false / ""
 		return c.cls == -1, false
 	}
+	if c.kind == "sentinel" && isZero {
+		return c.cls == -1, false
+	}
 	switch c.kind {
+	case "sentinel":
+		// the component is (a load of) a package-level error variable, nil, or something else
+		if g := sentinelOf(val); g != nil {
+			return (g == c.glob) == (c.cls == 1), false
+		}
+		if k, n := Nilness(val, f); k && n {
+			return c.cls == -1, false
+		}
+		return true, false
 	case "nil":
+		// a package-level error variable is not nil (trusted)
+		if sentinelOf(val) != nil {
+			return c.cls == 1, false
+		}
 		if k, n := Nilness(val, f); k {
 			return n == (c.cls == -1), false
 		}
@@ -800,4 +863,52 @@ func ReturnedFieldValues(fn *ssa.Function, idx, field int) (vals []ssa.Value, ze
 		ok = false
 	}
 	return
+}
+
+// EachReturnedFieldValue calls visit for every return of fn with the values field #field of result
+// #idx can hold there (the stores into that field of the struct variable the return loads; zero when
+// there is none). ok=false when a return does not yield a struct built in a local variable.
+func EachReturnedFieldValue(fn *ssa.Function, idx, field int, visit func(ret *ssa.Return, vals []ssa.Value, zero bool)) (ok bool) {
+	ok = true
+	n := 0
+	AllInstrs(fn, func(in ssa.Instruction) {
+		ret, isRet := in.(*ssa.Return)
+		if !isRet || idx >= len(ret.Results) {
+			return
+		}
+		n++
+		rv := ret.Results[idx]
+		if k, isK := rv.(*ssa.Const); isK && k.Value == nil {
+			visit(ret, nil, true)
+			return
+		}
+		ld, isLd := rv.(*ssa.UnOp)
+		if !isLd || ld.Op != token.MUL {
+			ok = false
+			return
+		}
+		a, isA := ld.X.(*ssa.Alloc)
+		if !isA || !trackableStruct(a) {
+			ok = false
+			return
+		}
+		var vals []ssa.Value
+		for _, r := range *a.Referrers() {
+			switch x := r.(type) {
+			case *ssa.Store:
+				ok = false
+			case *ssa.FieldAddr:
+				if x.Field != field || x.Referrers() == nil {
+					continue
+				}
+				for _, fr := range *x.Referrers() {
+					if st, isSt := fr.(*ssa.Store); isSt {
+						vals = append(vals, st.Val)
+					}
+				}
+			}
+		}
+		visit(ret, vals, len(vals) == 0)
+	})
+	return ok && n > 0
 }
